@@ -13,6 +13,7 @@ import (
 	"github.com/oasisprotocol/curve25519-voi/curve"
 	"github.com/oasisprotocol/curve25519-voi/primitives/ed25519"
 	"github.com/oasisprotocol/curve25519-voi/primitives/ed25519/extra/cache"
+	"github.com/oasisprotocol/curve25519-voi/zzverif/disturb"
 	"github.com/oasisprotocol/curve25519-voi/zzverif/gen"
 	"github.com/oasisprotocol/curve25519-voi/zzverif/mon"
 	"github.com/oasisprotocol/curve25519-voi/zzverif/ref"
@@ -118,6 +119,11 @@ func history(r *mon.Run, c Case) {
 		var all bool
 		var bits []bool
 		var rd1, rd2 = entropy(), entropy()
+		// one check in three is immediately preceded by an operation that fails (package disturb)
+		if d := rng.IntN(3 * disturb.NEd25519); d < disturb.NEd25519 {
+			step("disturbance: " + disturb.Ed25519(d))
+			r.Hist("disturbed-before-batch-verify")
+		}
 		pan, msg := mon.Try(func() {
 			if rd1 == nil {
 				all, bits = bv.Verify(nil)
